@@ -20,9 +20,12 @@ def register(db):
     })
     # user callbacks: awaited one by one; may fail.  ghost.cb_calls counts them.
     db.contract(fn="Callback.__call__", assumed=True, is_async=True, params=["fn"], returns="opaque",
-                modifies=["ghost.cb_calls"], ensures={"counted": "ghost.cb_calls == old(ghost.cb_calls) + 1"},
-                raises=[Raises("Exception", mode="may", anysub=True, when="flag('callback_fails')", modifies=["ghost.cb_calls"],
-                               ensures={"counted": "ghost.cb_calls == old(ghost.cb_calls) + 1"})],
+                modifies=["ghost.cb_calls", "ghost.called"],
+                ensures={"counted": "ghost.cb_calls == old(ghost.cb_calls) + 1", "order": "ghost.called == appended(old(ghost.called), fn)"},
+                raises=[Raises("Exception", mode="may", anysub=True, when="flag('callback_fails')",
+                               modifies=["ghost.cb_calls", "ghost.called"],
+                               ensures={"counted": "ghost.cb_calls == old(ghost.cb_calls) + 1",
+                                        "order": "ghost.called == appended(old(ghost.called), fn)"})],
                 note="registered callback (user function or the result-store closure): may raise any Exception")
     db.contract(fn="LazyResultCallback.__call__", assumed=True, params=["fn"],
                 note="the lazily positioned insert of the store callable: `lambda: None` or partial(list.insert, n, store); "
@@ -30,14 +33,51 @@ def register(db):
     db.contract(fn="repid/_asyncify.py::asyncify", assumed=True, params=["fn", "run_in_process"], defaults={"run_in_process": "False"},
                 returns="func[Callback]", note="wraps a sync or async callable into an async callable")
 
+    LAZY = "self._MessageDependency__lazy_result_callback"
+
+    def lazy_state(ip, args):
+        """representation of the lazily positioned store callable: `lambda: None` or partial(self._callbacks.insert, n, store)
+        with 0 <= n <= len(self._callbacks) (n was len() at set_* time and callbacks are only ever appended)"""
+        import ast as _ast
+        import z3 as _z3
+        from pyvc.values import VInt, VLambda, VOpaque, VPartial
+        from pyvc.interp import Frame
+        me = args["self"]
+        st = ip.st
+        cbs = st.heap[(me.ref, "_callbacks")]
+        is_set = st.fresh("lazy_is_set", _z3.BoolSort())
+        st.input_terms["lazy_is_set"] = is_set
+        if st.branch(is_set):
+            pos = st.fresh("lazy_pos", _z3.IntSort())
+            st.input_terms["lazy_pos"] = pos
+            st.assume(_z3.And(pos >= 0, pos <= _z3.Length(st.heap[(cbs.ref, "seq")])))
+            tok = VOpaque(st.fresh("store_callable", Opaque_), tag="Callback")
+            ins = ip.getattr(cbs, "insert")
+            st.heap[(me.ref, "_MessageDependency__lazy_result_callback")] = VPartial(ins, [VInt(pos), tok], {})
+        else:
+            node = _ast.parse("lambda: None", mode="eval").body
+            st.heap[(me.ref, "_MessageDependency__lazy_result_callback")] = VLambda(node, Frame(None))
+
+    from pyvc.values import Opaque as Opaque_
+    EXPECTED = (f"(self._callbacks[0:partial_arg({LAZY}, 0)] + seq_of(partial_arg({LAZY}, 1)) + "
+                f"self._callbacks[partial_arg({LAZY}, 0):len(self._callbacks)])"
+                f" if is_insert_partial({LAZY}, self._callbacks) else self._callbacks")
+    db.define("expected_callbacks(self)", f"snap({EXPECTED})")
     db.contract(
-        fn=MD + "__execute_callbacks", serves=["C16", "C13", "C02"],
-        ghost_init={"cb_calls": "int", "callback_fails": "bool", "trace": "events"},
-        ensures={"all_called": "ghost.cb_calls == old(ghost.cb_calls) + len(self._callbacks)"},
+        fn=MD + "__execute_callbacks", serves=["C16", "C13", "C02"], setup=lazy_state,
+        ghost_init={"cb_calls": "int", "callback_fails": "bool", "trace": "events", "called": "seq[func[Callback]]"},
+        lets={"exp": "expected_callbacks(self)"},
+        ensures={"all_called": "ghost.cb_calls == old(ghost.cb_calls) + len(self._callbacks)",
+                 # registration order, the result store taking the place of the latest set_result / set_exception call
+                 "in_registration_order_store_in_place": "ghost.called == old(ghost.called) + exp",
+                 "list_is_the_expected_one": "self._callbacks == exp"},
         raises=[],   # a failing callback never escapes (it would be taken for a failed execution after the disposition)
-        modifies=["ghost.cb_calls"],
+        modifies=["ghost.cb_calls", "ghost.called", "self._callbacks"],
         loops={0: LoopInv(header="for c in self._callbacks",
-                          invariant=["ghost.cb_calls == old(ghost.cb_calls) + i"], ghost={"index": "i"})},
+                          invariant=["ghost.cb_calls == old(ghost.cb_calls) + i",
+                                     "ghost.called == old(ghost.called) + self._callbacks[0:i]",
+                                     "self._callbacks == exp"], ghost={"index": "i"},
+                          modifies={"ghost.cb_calls": None, "ghost.called": None})},
     )
 
     def eager(op, guards, default_success, extra=None):
@@ -52,8 +92,9 @@ def register(db):
             Raises("_NoAction", mode="may", when=f"not ({cond})", bind="e",
                    effects=extra.get("effects", [("trace", f"('{op}', self._key)")]),
                    fresh=extra.get("fresh", {}),
-                   modifies=[RO, "ghost.cb_calls"],
+                   modifies=[RO, "ghost.cb_calls", "ghost.called", "self._callbacks"],
                    ensures=dict({
+                       "callbacks_in_registration_order_store_in_place": "ghost.called == old(ghost.called) + exp",
                        "used": f"{RO} == True",
                        "success": f"e.success == ({default_success} if old({RS}) is None else old({RS}))",
                        "data": f"e.data == old({RD})",
@@ -63,10 +104,12 @@ def register(db):
         ]
         db.contract(
             fn=MD + op, serves=["C16", "C02", "C13"] + extra.get("serves", []), clock=extra.get("clock", []),
-            ghost_init={"trace": "events", "broker_fails": "bool", "cb_calls": "int", "callback_fails": "bool"},
-            requires=extra.get("requires", []), lets=extra.get("lets", {}),
+            ghost_init={"trace": "events", "broker_fails": "bool", "cb_calls": "int", "callback_fails": "bool",
+                        "called": "seq[func[Callback]]"},
+            setup=lazy_state,
+            requires=extra.get("requires", []), lets=dict(extra.get("lets", {}), exp="expected_callbacks(self)"),
             ensures={"never_returns_normally": "False"},
-            raises=raises, modifies=[RO, "ghost.cb_calls"],
+            raises=raises, modifies=[RO, "ghost.cb_calls", "ghost.called", "self._callbacks"],
         )
 
     eager("ack", [RO], "True")
@@ -108,7 +151,9 @@ def register(db):
             ensures={"success": f"{RS} == {ok}",
                      "data": f"{RD} == conv_out(arg_result)" if ok else f"{RD} is None",
                      "exception": f"{RE} is None" if ok else f"{RE} == exc",
-                     "callbacks_untouched": "self._callbacks == old(self._callbacks)"},
+                     "callbacks_untouched": "self._callbacks == old(self._callbacks)",
+                     "store_takes_this_place": f"is_insert_partial({LAZY}, self._callbacks)"
+                                               f" and partial_arg({LAZY}, 0) == len(self._callbacks)"},
             modifies=[RS, RD, RE, "self._MessageDependency__lazy_result_callback"],
         )
         db.contract(
@@ -130,7 +175,6 @@ def register(db):
                 ensures={"appended": "len(self._callbacks) == len(old(self._callbacks)) + 1",
                          "prefix_kept": "self._callbacks[0:len(old(self._callbacks))] == old(self._callbacks)"},
                 modifies=["self._callbacks"])
-    db.prop_meta("C16", not_decided=[
-        "position of the result-store callable among the callbacks (list order is proved for the list as it stands "
-        "when callbacks run; the lazily computed insert position is not modelled)",
-    ])
+    db.prop_meta("C16", assumptions=["the lazily positioned store callable is `lambda: None` or partial(list.insert, n, store) "
+                                     "with 0 <= n <= len(callbacks) (representation established by set_result/set_exception, "
+                                     "which are verified to produce exactly that)"])
